@@ -382,3 +382,20 @@ def sink_items(k: K.Kit, integ: str, sink: Any) -> list:
         for (s, p, o) in sink.attrs["data"].items:
             out.append(("triple", neutral_of_rdflib(it, s), neutral_of_rdflib(it, p), neutral_of_rdflib(it, o)))
     return out
+
+
+LANGCASE_CONSTRUCT = "pyjelly.serialize.encode.encode_spo:repeated-term-equality:language-tag-case"
+
+
+def fold_langcase(v: Any) -> Any:
+    """Frozen neutral items with every constant language tag lower-cased (RDF language tags are case-insensitive and
+    rdflib's Literal equality ignores their case)."""
+    if isinstance(v, (tuple, list)):
+        if len(v) == 4 and v[0] == "lit" and isinstance(v[2], str):
+            return ("lit", fold_langcase(v[1]), v[2].lower(), fold_langcase(v[3]))
+        return tuple(fold_langcase(x) for x in v)
+    return v
+
+
+def only_langcase_differs(a: Any, b: Any) -> bool:
+    return a != b and fold_langcase(a) == fold_langcase(b)
